@@ -48,9 +48,17 @@ def run(case):
 
     def f():
         tg = iogen.build_tg(case["g"], sc.f)
-        txt = textgrid_io.getTextgridAsStr(_tgToDictionary(tg), "textgrid_json", case["blanks"],
-                                           None if case["mn"] is None else sc.f(case["mn"]),
-                                           None if case["mx"] is None else sc.f(case["mx"]), case["thr"])
+        mn = None if case["mn"] is None else sc.f(case["mn"])
+        mx = None if case["mx"] is None else sc.f(case["mx"])
+        txt = textgrid_io.getTextgridAsStr(_tgToDictionary(tg), "textgrid_json", case["blanks"], mn, mx, case["thr"])
+        # a save does not depend on earlier saves of the same object (e.g. one with the other blank-filling setting)
+        try:
+            textgrid_io.getTextgridAsStr(_tgToDictionary(tg), "textgrid_json", not case["blanks"], None, None, None)
+        except Exception:  # noqa
+            pass
+        again = textgrid_io.getTextgridAsStr(_tgToDictionary(tg), "textgrid_json", case["blanks"], mn, mx, case["thr"])
+        if again != txt:
+            raise core.OffGrid("saving the same textgrid again (after a save with the other includeBlankSpaces setting) wrote different data")
         return iogen.dtg_from_json(txt, lambda x: core.tk(x, sc))
     return core.run_guarded(f)
 
